@@ -10,8 +10,12 @@
 //	report                   usageTracker.NewReport (the caller now holds that report)
 //	sent                     usageTracker.completeSend (the held report was delivered)
 //	fail                     the caller gives up on the held report (no call into the code)
-//	tick <outcome> <mids>    one real Agent.sendUsageReport() against a scripted OpAMP client;
-//	                         outcome = ok | pend-ok | fail | pend-fail ; mids = "-" or "sig:reading,…"
+//	tick <script> <mids>     one real Agent.sendUsageReport() against a scripted OpAMP client;
+//	                         script = one letter per SendCustomMessage call: a accepted, p pending
+//	                         (ErrCustomMessagePending + a channel that is closed), e other error,
+//	                         A / P = accepted / pending with a channel that is never closed: the
+//	                         agent is shut down (ctx cancelled) at that moment, nothing may follow;
+//	                         calls beyond the script get e.  mids = "-" or "sig:reading,…"
 //	                         = Add calls made by the health-check loop while the report is being sent
 //	                         (performed inside the first SendCustomMessage call).
 //
@@ -19,6 +23,7 @@
 package main
 
 import (
+	"context"
 	"errors"
 	"fmt"
 	"math"
@@ -112,24 +117,34 @@ func (comp) Gen(r *kit.Rng, maxLen int, tier string) kit.Case {
 			ops = append(ops, g.add())
 		}
 	}
+	// answers of the client, one letter per call (the loop makes at most two calls; longer
+	// scripts check exactly that)
+	failing := func() string {
+		return []string{"e", "e", "e", "pe", "pe", "pp", "pp", "p", "ppp", "ppa", "ppe", "pep", "ea"}[r.Intn(13)]
+	}
+	succeeding := func() string {
+		return []string{"a", "a", "a", "a", "pa", "pa", "pa", "pae", "pap", "ap", "ae"}[r.Intn(11)]
+	}
+	shutdown := func() string {
+		return []string{"A", "P", "pA", "pP", "PA", "Ap"}[r.Intn(6)]
+	}
 	if mode == "agent" {
 		for len(ops) < n {
 			// a run of 0–4 failed sends, then a successful one
 			fails := r.Pick(35, 25, 20, 12, 8)
 			for i := 0; i < fails; i++ {
 				adds(3)
-				o := "fail"
-				if r.Chance(35) {
-					o = "pend-fail"
-				}
-				ops = append(ops, fmt.Sprintf("tick %s %s", o, g.mids()))
+				ops = append(ops, fmt.Sprintf("tick %s %s", failing(), g.mids()))
 			}
 			adds(3)
-			o := "ok"
-			if r.Chance(35) {
-				o = "pend-ok"
+			ops = append(ops, fmt.Sprintf("tick %s %s", succeeding(), g.mids()))
+		}
+		if r.Chance(8) { // the agent is shut down while a send is in progress
+			adds(2)
+			ops = append(ops, fmt.Sprintf("tick %s %s", shutdown(), g.mids()))
+			if r.Chance(50) {
+				ops = append(ops, g.add(), "tick a -")
 			}
-			ops = append(ops, fmt.Sprintf("tick %s %s", o, g.mids()))
 		}
 	} else {
 		held := false
@@ -161,7 +176,11 @@ func (comp) Gen(r *kit.Rng, maxLen int, tier string) kit.Case {
 				case 3:
 					ops = append(ops, "fail")
 				case 4:
-					ops = append(ops, fmt.Sprintf("tick %s %s", []string{"ok", "pend-ok", "fail", "pend-fail"}[r.Intn(4)], g.mids()))
+					if r.Chance(50) {
+					ops = append(ops, fmt.Sprintf("tick %s %s", succeeding(), g.mids()))
+				} else {
+					ops = append(ops, fmt.Sprintf("tick %s %s", failing(), g.mids()))
+				}
 				}
 			}
 		}
@@ -173,24 +192,17 @@ func (comp) Gen(r *kit.Rng, maxLen int, tier string) kit.Case {
 
 var errSend = errors.New("verif: scripted send failure")
 
-type sendResult int
-
-const (
-	sendOK sendResult = iota
-	sendPending
-	sendErr
-)
-
 // fakeClient implements only SendCustomMessage; any other method of the embedded nil interface
 // panics, which the kit reports (sendUsageReport must not call anything else).
 type fakeClient struct {
 	client.OpAMPClient
-	script   []sendResult
+	script   string // one letter per call: a A p P e
 	calls    int
 	first    []byte // Data of the first message offered
 	accepted [][]byte
 	badCap   bool
 	onFirst  func()
+	onHang   func() // shuts the agent down: the returned channel is never closed
 }
 
 func (f *fakeClient) SendCustomMessage(m *protobufs.CustomMessage) (chan struct{}, error) {
@@ -204,17 +216,21 @@ func (f *fakeClient) SendCustomMessage(m *protobufs.CustomMessage) (chan struct{
 	if m.Capability != agent.VerifCapability() {
 		f.badCap = true
 	}
-	ch := make(chan struct{})
-	close(ch) // whatever is pending has been sent by the time the caller looks
-	res := sendErr
+	res := byte('e')
 	if f.calls <= len(f.script) {
 		res = f.script[f.calls-1]
 	}
+	ch := make(chan struct{})
+	if res == 'A' || res == 'P' {
+		f.onHang()
+	} else {
+		close(ch) // the message occupying the slot has gone out by the time the caller looks
+	}
 	switch res {
-	case sendOK:
+	case 'a', 'A':
 		f.accepted = append(f.accepted, m.Data)
 		return ch, nil
-	case sendPending:
+	case 'p', 'P':
 		return ch, types.ErrCustomMessagePending
 	}
 	return nil, errSend
@@ -226,6 +242,7 @@ type runner struct {
 	clock *clockwork.FakeClock
 	fc    *fakeClient
 	u     *agent.VerifUsage
+	dead  bool // the agent's context was cancelled
 }
 
 func (comp) NewCase(h []string) kit.Runner {
@@ -353,6 +370,10 @@ func errClass(err error) string {
 		return "nodata"
 	case errors.Is(err, errSend):
 		return "senderr"
+	case errors.Is(err, types.ErrCustomMessagePending):
+		return "pending"
+	case errors.Is(err, context.Canceled):
+		return "ctx"
 	case strings.Contains(err.Error(), "invalid negative value"):
 		return "negative"
 	case strings.Contains(err.Error(), "too large"):
@@ -391,20 +412,15 @@ func (r *runner) Do(op []string) (string, bool) {
 	case op[0] == "fail" && len(op) == 1:
 		return r.state(), true
 	case op[0] == "tick" && len(op) == 3:
-		var script []sendResult
-		switch op[1] {
-		case "ok":
-			script = []sendResult{sendOK}
-		case "pend-ok":
-			script = []sendResult{sendPending, sendOK}
-		case "fail":
-			script = []sendResult{sendErr}
-		case "pend-fail":
-			script = []sendResult{sendPending, sendErr}
-		default:
-			return "bad-op", true
+		for _, c := range op[1] {
+			if !strings.ContainsRune("aApPe", c) {
+				return "bad-op", true
+			}
 		}
-		*r.fc = fakeClient{script: script}
+		if r.dead { // after shutdown the loop's select is a race; it is not run
+			return "res=dead sends=0 made=none got=none " + r.state(), true
+		}
+		*r.fc = fakeClient{script: op[1], onHang: func() { r.dead = true; r.u.Close() }}
 		okMids := true
 		if op[2] != "-" {
 			mids := strings.Split(op[2], ",")
